@@ -1,5 +1,6 @@
 #!/bin/sh
 # tools/verify_mutant.sh <dir with patch.diff demo.py>  : confirm a seeded change in a scratch worktree of /repo HEAD
+V=$(cd "$(dirname "$0")/.." && pwd)
 d=$1; wt=/tmp/wt/verify_$$
 git -C /repo worktree add -q --detach $wt HEAD || exit 3
 cd $wt
